@@ -281,7 +281,7 @@ class Deriver:
         if getattr(self, 'comments', False) and self.r.random() < 0.08:
             cr = self.g.rule('Comment')
             if cr is not None:
-                if cr.body.pat.startswith('/\\*'):
+                if comment_pattern(self.g).startswith('/\\*'):
                     return (' ' if ' ' in w else '') + '/* c%d */' % self.r.randint(0, 99) + (' ' if ' ' in w else '')
                 if '\n' in w:
                     return (' ' if ' ' in w else '') + '// c%d\n' % self.r.randint(0, 99)
